@@ -83,6 +83,7 @@ PLANS = {
         "assumptions": ["non-termination is decided as bounded progress: 120 s CPU then 1200 s CPU alone"],
         "runs": flow("c07", ["general", "degenerate", "big", "wide", "dense", "multirow", "obstruction", "paramfuzz"], "asan", 200, 3000)
                 + flow("c07", ["general", "degenerate", "big", "wide", "dense", "multirow", "obstruction", "paramfuzz"], "ndebug", 200, 3000)
+                + flow("c07", ["floating"], "asan", 1200, 12000) + flow("c07", ["floating"], "ndebug", 600, 6000)
                 + [MC("h_flow", "c07.general", 48), MC("h_flow", "c07.degenerate", 48), MC("h_flow", "c07.paramfuzz", 48)],
     },
     "C10": {
